@@ -1,6 +1,6 @@
 (* Invariants of the receiver model (Model/Recv.v) over ALL event lists. *)
 From Coq Require Import ZArith List Bool Arith Lia Permutation.
-From TF Require Import Lib.GoInt Gen.Geometry Model.Recv.
+From TF Require Import Lib.GoInt Gen.Geometry Gen.C15 Model.Recv.
 Import ListNotations.
 Open Scope Z_scope.
 
@@ -437,6 +437,7 @@ Proof.
   destruct fi as [i|]; [|apply Inv_set_result; [exact H|discriminate]].
   destruct (nth_error (manifest s) i) as [mf|] eqn:N; [|apply Inv_set_result; [exact H|discriminate]].
   destruct (negb (m_size mf =? size)); [apply Inv_set_result; [exact H|discriminate]|].
+  destruct ((cs =? 0) || (c_maxChunkSize <? cs)); [apply Inv_set_result; [exact H|discriminate]|].
   destruct (negb (sid =? 0) && negb (sid =? m_key mf)); [apply Inv_set_result; [exact H|discriminate]|].
   destruct (find_active (m_key mf) (active s)) eqn:F; [apply Inv_set_result; [exact H|discriminate]|].
   destruct (negb io); [apply Inv_set_result; [exact H|discriminate]|].
@@ -481,8 +482,7 @@ Proof.
   - destruct (find_active key (active s)) as [f|].
     + destruct (negb fid); [apply Inv_set_result; [exact H|discriminate]|].
       destruct (cancelled s); [apply Inv_set_result; [exact H|discriminate]|apply Inv_add_ack; exact H].
-    + destruct (memZ key (done_keys s)); [exact H|].
-      frame H Hr.
+    + destruct (memZ key (done_keys s)); [exact H|apply Inv_set_result; [exact H|discriminate]].
   - match goal with |- Inv (if all_completed ?s1 then _ else _) => assert (Inv s1) as H1 end.
     { frame H Hr. }
     destruct (all_completed _) eqn:A; [|exact H1]. apply Inv_set_result; [exact H1|intros _; exact A].
